@@ -8,21 +8,24 @@ func VH_C12_closest_sched() {
 	mode := vChoice("mode", 3)
 	q := []byte(">q0\nACGT\n>q1\nACGA\n")
 	t := []byte(">t0\nACGT\n>t1\nACGA\n>t2\nTCGT\n")
-	run := func() string {
+	run := func(threads int) string {
 		w := &vCapture{}
 		var err error
 		switch mode {
 		case 0:
-			err = Closest(bytes.NewReader(q), bytes.NewReader(t), "snp", w, 2)
+			err = Closest(bytes.NewReader(q), bytes.NewReader(t), "snp", w, threads)
 		case 1:
-			err = ClosestN(2, -1.0, bytes.NewReader(q), bytes.NewReader(t), "raw", w, false, 2)
+			err = ClosestN(2, -1.0, bytes.NewReader(q), bytes.NewReader(t), "raw", w, false, threads)
 		default:
-			err = ClosestN(2, -1.0, bytes.NewReader(q), bytes.NewReader(t), "snp", w, true, 2)
+			err = ClosestN(2, -1.0, bytes.NewReader(q), bytes.NewReader(t), "snp", w, true, threads)
 		}
 		vAssert("C12.closest.no-error", err == nil)
 		return string(w.buf)
 	}
-	base := run()
+	base := run(1)
+	// any --threads value (0 = all processors) on 1..NCPU processors, under any explored schedule
+	threads := vChoice("threads", 4)
+	vNumCPU(1 + vChoice("ncpu", vParam("NCPU")))
 	vSchedExplore(vParam("DEV"))
-	vAssert("C12.closest.output-independent-of-schedule", run() == base)
+	vAssert("C12.closest.output-independent-of-schedule", run(threads) == base)
 }
